@@ -1,6 +1,7 @@
 import JaqalProofs.Lemmas.PassTextSubs
 import JaqalProofs.Lemmas.PassTextEval1
 import JaqalProofs.Lemmas.PassTextEval2
+import JaqalProofs.Lemmas.PassTextEval3
 /-!
 # C10, last clause — the text of a pass result
 
@@ -22,16 +23,23 @@ and the whole round trip of `c'`.  This file replaces those two hypotheses, as f
 * `C10_text_subs_layers`: for a PARSED circuit and `expand_subcircuits`, hypothesis-free up to `IntsBounded c'`: the text is
   generated and `parseProgram cfg' t = parseBuild cfg' (unbuild c')` for every `cfg'`.
 * **`C10_text_subs_refuted`, `C10_text_subs_refuted_natives` — the clause is FALSE for `expand_subcircuits`**, in the model
-  and in the real code:
-  1. `register r[1]; subcircuit { g r[0] }; prepare_all r[0]` (no gate set: `prepare_all` is an anonymous gate with one
-     parameter).  The pass inserts `prepare_all` WITHOUT arguments; the generated text
-     `{ prepare_all; g r[0]; measure_all }; prepare_all r[0]` is refused by `parse_jaqal_string`
-     (`JaqalError: Too many parameters for gate prepare_all`; model: `too-many-parameters`).  No configuration accepts it.
-  2. with an injected gate set that does not define `prepare_all` / `measure_all` (`inject_pulses={"g": …}`) the text of
-     EVERY result that had a subcircuit is refused under the same configuration (`No gate prepare_all defined`; model:
-     `gate-not-found`): `_choose_bounding_gate` makes a fresh `GateDefinition` that is in no gate set.
+  and in the real code (both texts checked with `/venv/bin/python`; kernel evaluations in `Lemmas/PassTextEval1/2.lean`):
+  1. `subcircuit { g }; prepare_all 1` (also `register r[1]; subcircuit { g r[0] }; prepare_all r[0]`), no gate set:
+     `prepare_all` is an anonymous gate with one parameter.  The pass inserts `prepare_all` WITHOUT arguments; the generated
+     text `{ prepare_all; g; measure_all }; prepare_all 1` is refused by `parse_jaqal_string`
+     (`JaqalError: Too many parameters for gate prepare_all`; model: `too-many-parameters`).
+  2. `subcircuit { g }` with an injected gate set that does not define `prepare_all` / `measure_all`
+     (`inject_pulses={"g": GateDefinition("g", [])}`): the text of the result is refused under the same configuration
+     (`JaqalError: No gate prepare_all defined`) — as is the text of EVERY result that had a subcircuit:
+     `_choose_bounding_gate` makes a fresh `GateDefinition` that is in no gate set — and accepted without a gate set.
   Hence `C10_text_full` below is stated for sequences WITHOUT `expand_subcircuits`, and `C10_text_subs_full` carries the
-  side condition.
+  side condition the two counterexamples dictate.
+* `C10_text_subs_partial`: `expand_subcircuits` on a parsed circuit with everything but layer C proved.
+* `C10_text_partial`: `C10_text_full` for one pass from the two open statements `C10_printable_full`, `C10_layerC_full`.
+* `C10_text_example` (non-vacuity, `Lemmas/PassTextEval3.lean`): the example of C01 (lets, alias slice, macro, loop,
+  subcircuits) through `run_jaqal_circuit`'s pipeline, through `fill_in_let(n=6) ; fill_in_map` and through
+  `expand_macros(preserve_definitions=True)`: the result is printable, `IntsBounded`, and the tree of its text builds to a
+  circuit with the same gate applications — evaluated by the kernel.
 * `C10_text_of_layerC`: the composition — for a parsed circuit, an applicable sequence of passes, a result that is
   `printable`, `NamesOK` and `IntsBounded`, and GIVEN layer C for the result (hypothesis `hC`, about the builder alone:
   `unbuild c'` builds under `cfg'` to a circuit that means what `c'` means) the text of the result re-parses under `cfg'`
@@ -252,6 +260,19 @@ theorem C10_text_subs_partial (cfg cfg' : Config) (txt : String) (ρ : Env) (c c
   exact C10_text_of_layerC cfg' ρ [.subs] c c' s ⟨hL, trivial, fun _ _ => trivial⟩ hseq hm
     (subs_printable hL (C01.C01_printable_any cfg txt c hp) ha) (subs_namesOK hL (parsed_namesOK hp) ha) hi hC
 
+/-! ## Non-vacuity -/
+
+/-- the example of C01 (`C01.exSx`: lets of both kinds, a let-sized register, whole / index / slice aliases, a macro, nested
+blocks, a loop, subcircuits with and without a count) through three pass sequences: the result is printable and
+`IntsBounded` (so, being `NamesOK`-free of new names, layers A and B apply) and layer C holds up to `Sem.flat`:
+`unbuild c'` builds to a circuit with the same gate applications in the same order.  (The hypotheses of
+`C10_text_subs_layers` — a parsed text, a successful pass, a bounded result — are exhibited by `C10_text_subs_refuted`.) -/
+theorem C10_text_example :
+    textCheck [.subs, .let_ [], .macros false] C01.exC = true ∧
+    textCheck [.let_ [("n", .int 6)], .map] C01.exC = true ∧
+    textCheck [.macros true] C01.exC = true :=
+  ⟨exC_text_run, exC_text_let_map, exC_text_macros⟩
+
 end Jaqal.Passes
 
 #print axioms Jaqal.Passes.C10_text_reduces
@@ -264,3 +285,4 @@ end Jaqal.Passes
 #print axioms Jaqal.Passes.C10_text_of_layerC
 #print axioms Jaqal.Passes.C10_text_partial
 #print axioms Jaqal.Passes.C10_text_subs_partial
+#print axioms Jaqal.Passes.C10_text_example
